@@ -41,7 +41,10 @@ Inductive expr :=
 | EMapContains (m k : expr)                     (* m.contains_key(&k) *)
 | ECountOf (e : expr)                           (* e.count() *)
 | ENot (e : expr)                               (* !e *)
-| ESnap (m b : expr).                           (* the pair (m, b) returned by count_children *)
+| ESnap (m b : expr)                            (* the pair (m, b) returned by count_children *)
+| EMergeNec (a b : expr).                       (* merge_necessity(a, b) on attribute lists: the model
+                                                   function, which Properties/C15rs.v proves to be what
+                                                   the source of merge_necessity computes *)
 
 Inductive stmt :=
 | SSkip
@@ -57,6 +60,8 @@ Inductive stmt :=
 | SMapInsert (p : place) (k v : expr)                 (* p.insert(k, v); *)
 | SIfLetMand (x : string) (e : expr) (body : stmt)    (* if let Necessity::Mandatory(x) = e { body } *)
 | SWhilePop (x : string) (p : place) (body : stmt)    (* while let Some(x) = p.pop() { body } *)
+| SAddOne (p : place)                                 (* p += 1; on the u32 counter (unbounded here: the
+                                                         overflow is excluded by C07_no_overflow) *)
 | SWithChildMut (x : string) (p : place) (n : expr) (body : stmt).
     (* if let Some(t) = p.get_child_mut(&n) { let x = t.inner_t_mut(); body }: body works on the
        first child of p named n in place *)
@@ -96,6 +101,7 @@ Definition get_field (v : val) (f : string) : option val :=
       else if String.eqb f "attributes" then Some (VAttrs (eattrs e))
       else if String.eqb f "standalone" then Some (VBool (estandalone e))
       else if String.eqb f "position" then Some (match epos e with Some n => VSomeNat n | None => VNone end)
+      else if String.eqb f "count" then Some (VCount (ecount e))
       else None
   | _ => None
   end.
@@ -113,6 +119,8 @@ Definition set_field (v : val) (f : string) (w : val) : option val :=
         | VSomeNat n => Some (VElem (set_pos e (Some n)))
         | VNone => Some (VElem (set_pos e None))
         | _ => None end
+      else if String.eqb f "count" then
+        match w with VCount k => Some (VElem (set_count e k)) | _ => None end
       else None
   | _ => None
   end.
@@ -317,6 +325,13 @@ Section Eval.
             | Some (VBool x, en2) => Some (VSnap l x, en2)
             | _ => None end
         | _ => None end
+    | EMergeNec a b =>
+        match eval a en with
+        | Some (VAttrs l1, en1) =>
+            match eval b en1 with
+            | Some (VAttrs l2, en2) => Some (VAttrs (merge_necessity str_eqb l1 l2), en2)
+            | _ => None end
+        | _ => None end
     end.
 
   Inductive flow := Normal | Returned.
@@ -426,6 +441,11 @@ Section Eval.
                        end
                    end
                | _ => None end) (List.length l) en
+        | _ => None end
+    | SAddOne p =>
+        match read_place p en with
+        | Some (VCount k) => match write_place p (VCount (k + 1)) en with
+                             | Some en1 => Some (en1, Normal) | None => None end
         | _ => None end
     | SWithChildMut x p n body =>
         match eval n en with
